@@ -6,7 +6,7 @@ import shapelib
 M = 1000000
 
 
-def make_transformer(base, names, tnames, style, log=None):
+def make_transformer(base, names, tnames, style, log=None, none_names=()):
     """a pure transformer: every chosen rule/alias callback returns ('cb', name, children), every chosen terminal callback ('tcb', type, value)"""
     from lark import v_args
     ns = {}
@@ -15,17 +15,17 @@ def make_transformer(base, names, tnames, style, log=None):
             def f(self, *args, _n=n):
                 r = ('cb', _n, tuple(args))
                 if log is not None: log.append(r)
-                return r
+                return None if _n in none_names else r
         elif style == 'tree':
             def f(self, tree, _n=n):
                 r = ('cb', str(tree.data), tuple(tree.children))
                 if log is not None: log.append(r)
-                return r
+                return None if _n in none_names else r
         else:
             def f(self, children, _n=n):
                 r = ('cb', _n, tuple(children))
                 if log is not None: log.append(r)
-                return r
+                return None if _n in none_names else r        # a pure callback may return None (e.g. JSON null)
         ns[n] = f
     for t in tnames:
         def h(self, tok, _t=t):
@@ -56,7 +56,7 @@ def canon(x):
     return ['?', repr(x)]
 
 
-def model_val(v, labels, toks):
+def model_val(v, labels, toks, none_names=()):
     if v is None:
         return None
     if 't' in v:
@@ -65,9 +65,9 @@ def model_val(v, labels, toks):
             t = toks[i - M]; return ['ct', t[0], t[1]]
         t = toks[i]; return ['t', t[0], t[1]]
     d = v['d']
-    kids = [model_val(k, labels, toks) for k in v['k']]
+    kids = [model_val(k, labels, toks, none_names) for k in v['k']]
     if d >= M:
-        return ['c', labels[d - M], kids]
+        return None if labels[d - M] in none_names else ['c', labels[d - M], kids]
     return ['T', labels[d], kids]
 
 
@@ -79,13 +79,15 @@ def tree_to_forest(t, data_ids, toks):
     return {'t': len(toks) - 1}
 
 
-def term_val(v, data_names, toks):
+def term_val(v, data_names, toks, none_names=()):
     if 't' in v or 'ct' in v:
         t = toks[v.get('t', v.get('ct'))]
         if t is None: return None
         return ['ct' if 'ct' in v else 't', t.type, str(t)]
     key = 'c' if 'c' in v else 'T'
-    return [key, data_names[v[key]], [term_val(a, data_names, toks) for a in v['a']]]
+    if key == 'c' and data_names[v[key]] in none_names:
+        return None
+    return [key, data_names[v[key]], [term_val(a, data_names, toks, none_names) for a in v['a']]]
 
 
 def _case(args):
@@ -105,7 +107,8 @@ def _case(args):
     names = [n for n in visible if rng.random() < 0.6]
     tnames = [t for t in tvisible if rng.random() < 0.3]
     style = rng.choice(['plain', 'plain', 'inline', 'tree'])
-    T = make_transformer(Transformer, names, tnames, style)
+    none_names = [n for n in names if rng.random() < 0.2]
+    T = make_transformer(Transformer, names, tnames, style, none_names=none_names)
     try:
         with guarded(5):
             emb = Lark(g, parser='lalr', transformer=T(), **opts)
@@ -123,7 +126,7 @@ def _case(args):
                 raw = shapelib.raw_parse(plain, text)
         except UnexpectedInput:
             continue
-        rec = {'text': text, 'style': style, 'names': names, 'tnames': tnames}
+        rec = {'text': text, 'style': style, 'names': names, 'tnames': tnames, 'none_names': none_names}
         with guarded(10):
             rec['embedded'] = canon(emb.parse(text))
             rec['after'] = canon(T().transform(tree))
@@ -138,7 +141,7 @@ def _case(args):
         variants = {}
         for vname, base in [('Transformer', Transformer), ('NonRecursive', Transformer_NonRecursive), ('InPlace', Transformer_InPlace), ('InPlaceRecursive', Transformer_InPlaceRecursive)]:
             log = []
-            Tv = make_transformer(base, names, tnames, style, log)
+            Tv = make_transformer(base, names, tnames, style, log, none_names=none_names)
             with guarded(10):
                 out = Tv().transform(copy.deepcopy(tree))
             clog = [canon(x) for x in log]
@@ -206,8 +209,8 @@ def run(ctx, res):
             res.case(['embed', rec['grammar'], r['text'], r['style'], r['names'], r['tnames']], nontrivial=bool(r['cb_nodes'] or r['cb_toks']),
                      sample=dict(where, embedded=r['embedded']) if r['cb_nodes'] and len(res.samples) < 3 else None)
             res.count('embedded_vs_after'); res.count('style_' + r['style'])
-            me = model_val(m['embedded'][0], r['labels'], r['toks'])
-            ma = model_val(m['after'][0], r['labels'], r['toks'])
+            me = model_val(m['embedded'][0], r['labels'], r['toks'], r['none_names'])
+            ma = model_val(m['after'][0], r['labels'], r['toks'], r['none_names'])
             if m['embedded'] != m['after']:
                 res.corr_break('driver: buildListT differs from map trV buildList (hypothesis D.Plain violated?)', where)
             if r['embedded'] != r['after']:
@@ -226,8 +229,8 @@ def run(ctx, res):
                     res.violation('%s calls a parent before one of its children' % vname, dict(where, variant=vname, calls=v['ordered'])); break
             else:
                 toks = [None if t is None else type('Tk', (), {'type': t[0], '__str__': lambda self, _v=t[1]: _v})() for t in r['ftoks']]
-                mr = term_val(m['recursive'][0], r['data_names'], toks)
-                ms = term_val(m['stack'][0], r['data_names'], toks) if m['stack'] else None
+                mr = term_val(m['recursive'][0], r['data_names'], toks, r['none_names'])
+                ms = term_val(m['stack'][0], r['data_names'], toks, r['none_names']) if m['stack'] else None
                 if mr != ref['result']:
                     res.violation('Transformer result differs from the model tr', dict(where, code=ref['result'], model=mr))
                 elif ms != mr:
